@@ -95,13 +95,21 @@ fn run_driver(report: &mut Report, known: &KnownFindings, tier: Tier, driver: &s
     eprintln!("{}: {} plans (baseline {} reads, {} writes, {} flushes, {} iterations)", driver, plans.len(), base.reads, base.writes, base.flushes, base.iterations);
     // a client that hangs makes every execution run into the harness's real-time guard; after a handful of those the rest
     // of the enumeration is skipped (the run is a machinery failure anyway) instead of waiting 20 s per plan
+    // ... and once 32 plans have shown a problem the point is made: the remaining plans are skipped (counted in the evidence,
+    // `exhaustive` false); on a tree where the property holds nothing is ever skipped
     let timeouts = std::sync::atomic::AtomicUsize::new(0);
+    let failing = std::sync::atomic::AtomicUsize::new(0);
+    let skipped = std::sync::atomic::AtomicUsize::new(0);
     let outcomes: Vec<Outcome> = pool.install(|| plans.par_iter().map(|plan| {
         if timeouts.load(std::sync::atomic::Ordering::Relaxed) >= 8 { return Outcome { plan: plan.clone(), machinery: vec!["skipped after repeated harness timeouts".to_string()], ..Default::default() }; }
+        if failing.load(std::sync::atomic::Ordering::Relaxed) >= 32 { skipped.fetch_add(1, std::sync::atomic::Ordering::Relaxed); return Outcome { plan: plan.clone(), ..Default::default() }; }
         let o = execute(plan);
         if o.machinery.iter().any(|m| m.contains("did not finish")) { timeouts.fetch_add(1, std::sync::atomic::Ordering::Relaxed); }
+        if !o.problems.is_empty() { failing.fetch_add(1, std::sync::atomic::Ordering::Relaxed); }
         o
     }).collect());
+    let skipped = skipped.load(std::sync::atomic::Ordering::Relaxed);
+    if skipped > 0 { report.add_count("plans_skipped_after_32_failing_plans", skipped as u64); }
     let mut distinct: HashSet<u64> = HashSet::new();
     let mut first: BTreeMap<String, (String, Outcome)> = BTreeMap::new();
     let mut machinery = 0;
@@ -156,7 +164,7 @@ pub fn run_c13(tier: Tier) -> i32 {
     report.set("rule", json!("both real drivers (new_threaded_client on a gated blocking transport, new_tokio_client on a scripted AsyncRead/AsyncWrite under a paused current-thread runtime): two baseline workloads (A: connect, subscribe, QoS1 publish, 5000-byte QoS1 publish, QoS0 publish, 5000-byte inbound QoS1 publish, two statically invalid submissions, stop, close; B: the same with a 5000-byte QoS2 publish, an unsubscribe and a 5000-byte inbound QoS2 publish, judged for exactly-once in both directions); enumerated: every single deviation {read: 1 byte, half, would-block/pending, EOF, error; write: 1 byte, all-but-one, would-block/pending, interrupted, zero, error; flush error; refused connection} at every read/write/flush call index of the baseline, pairs of a benign deviation with any deviation (every third pair in the quick tier; thorough: any two deviations, the second also at call indices beyond the baseline's, i.e. on the connection after a fatal one, one user call together with one deviation, and triples of benign deviations), and every placement of close / close+submit / submit+close / stop / stop+DISCONNECT / stop+start before every loop iteration (threaded) or harness round (tokio); distinct = distinct (event stream, operation results, connection count, problems) digests"));
     let samples = json!([report.coverage.get("threaded_samples").cloned().unwrap_or(json!([])), report.coverage.get("tokio_samples").cloned().unwrap_or(json!([]))]);
     report.set("samples", samples);
-    report.set("exhaustive", json!(tier == Tier::Thorough));
+    report.set("exhaustive", json!(tier == Tier::Thorough && report.coverage.get("plans_skipped_after_32_failing_plans").is_none()));
     super::ws::run(&mut report, tier);
     report.assume("preemption inside std::sync::mpsc / Mutex / Condvar and the multi-threaded tokio scheduler are not explored: the cross-thread surface is one unbounded channel into the loop and one result slot back, and every position of every message in the loop's observation sequence is enumerated");
     report.assume("tokio: exactly one kind of source is made ready per harness round, which removes select!'s random tie-break; orders that need two sources ready at once are covered by E2's mirror and by the threaded driver");
